@@ -562,6 +562,63 @@ func C01(c *core.Ctx) error {
 			break
 		}
 	})
+	// ---- the mocked package is the MODULE ROOT package (its import path is the module path itself, its directory
+	// the go.mod directory): all placements, both templates, signatures naming types of that package
+	{
+		rootSrc := "package m\n\nimport \"example.com/m/dep\"\n\ntype RT struct{ N int }\n\ntype RG[T any] struct{ V T }\n\ntype RootI interface {\n\tM(t RT, o *RT, g RG[dep.T]) (RT, error)\n\tN(d dep.T) map[RT][]dep.T\n}\n\ntype RootPlain interface{ P(a int) string }\n"
+		type rp struct{ name, dir, pkgname, filename, check string }
+		places := []rp{
+			{"in-package test file", "{{.InterfaceDir}}", "m", "mocks_test.go", "."}, {"in-package file", "{{.InterfaceDir}}", "m", "mocks_gen.go", "."},
+			{"external test package", "{{.InterfaceDir}}", "m_test", "mocks_ext_test.go", "."}, {"separate package", "mocks", "mocks", "mocks.go", "./mocks"},
+		}
+		type rjob struct {
+			t, f string
+			p    rp
+		}
+		var rjobs []rjob
+		for _, t := range []string{"testify", "matryer"} {
+			for _, f := range []string{"gofmt", "noop"} {
+				for _, pl := range places {
+					rjobs = append(rjobs, rjob{t, f, pl})
+				}
+			}
+		}
+		core.ParallelFor(len(rjobs), func(i int) {
+			j := rjobs[i]
+			id := fmt.Sprintf("module root package|%s|%s %s", j.t, j.f, j.p.name)
+			cfg := core.M{"template": j.t, "formatter": j.f, "force-file-write": true, "log-level": "error", "all": true, "dir": j.p.dir, "pkgname": j.p.pkgname, "filename": j.p.filename,
+				"packages": core.M{core.ModPath: core.M{}}}
+			m, err := c.NewModule(fmt.Sprintf("c01-root-%d", i), map[string]string{"root.go": rootSrc, "dep/dep.go": shapes.HelperFiles["dep/dep.go"], ".mockery.yml": core.YAML(cfg)})
+			if err != nil {
+				c.Harness("%v", err)
+				return
+			}
+			defer m.Remove()
+			r := c.RunMockery(m.Dir, nil)
+			c.Ev.Add("transitions", 1)
+			if core.ResourceFailure(r) {
+				c.Skip("%s: run gave up for lack of resources", id)
+				return
+			}
+			replay := map[string]any{"case": id, "source": rootSrc, "config": core.YAML(cfg)}
+			if r.Exit != 0 {
+				c.Report(id+"|generate", fmt.Sprintf("[%s] mockery fails on the module's root package (exit %d): %s", id, r.Exit, firstN(lastErrLine(r.Stderr), 300)), replay)
+				return
+			}
+			_, errs, lerr := gocheck.Load(m.Dir, core.UserEnv(), "", true, j.p.check)
+			if lerr != nil {
+				c.Harness("%v", lerr)
+				return
+			}
+			if len(errs) > 0 {
+				c.Report(id+"|"+gocheck.Signature(errs[0].Msg), fmt.Sprintf("[%s] the mocks of the module's root package are not valid Go in their destination package: %s", id, errs[0]), replay)
+				return
+			}
+			mu.Lock()
+			pairs += 2
+			mu.Unlock()
+		})
+	}
 	c.Ev.Set("states", pairs)
 	c.Ev.Set("evaluations", pairs)
 	c.Ev.Set("traces_validated_against_impl", pairs)
@@ -572,7 +629,7 @@ func C01(c *core.Ctx) error {
 	c.Ev.Set("failing_case_ids", core.SortedKeys(failingCases))
 	c.Ev.Set("grammar_depth", depth)
 	c.Ev.Set("exhaustive", !c.Expired())
-	c.Ev.Set("rule", "corpus = one interface per case: every type shape of the grammar (24 atoms x 16 constructors to the stated depth) in parameter, result, variadic and mixed position; signature forms; interface forms (embedding, generics with every constraint kind, instantiated generic named types); every identifier of the alphabets (template locals, predeclared names, import names, case twins, non-ASCII) as parameter, result and type-parameter name; identifier x type pairs. Full product template x template-data x formatter x placement (165 combinations; reduced corpus for non-default template-data) plus 4 combinations with one output file per interface (fresh import registry per interface), each one mockery run over the whole corpus followed by go/packages type checking of the destination package with tests; failures attributed by position, otherwise by bisection; plus 11 go.mod spellings x 2 templates x 4 placements. states = (combination, interface) pairs decided; distinct_nontrivial = interfaces x templates")
+	c.Ev.Set("rule", "corpus = one interface per case: every type shape of the grammar (24 atoms x 16 constructors to the stated depth) in parameter, result, variadic and mixed position; signature forms; interface forms (embedding, generics with every constraint kind, instantiated generic named types); every identifier of the alphabets (template locals, predeclared names, import names, case twins, non-ASCII) as parameter, result and type-parameter name; identifier x type pairs. Full product template x template-data x formatter x placement (165 combinations; reduced corpus for non-default template-data) plus 4 combinations with one output file per interface (fresh import registry per interface), each one mockery run over the whole corpus followed by go/packages type checking of the destination package with tests; failures attributed by position, otherwise by bisection; plus 11 go.mod spellings x 2 templates x 4 placements; plus the module's root package as the mocked package (2 templates x gofmt/noop x 4 placements). states = (combination, interface) pairs decided; distinct_nontrivial = interfaces x templates")
 	c.Ev.Assume("interfaces whose method names collide with the mock's own API and unexported source types in out-of-package placements are outside the guarantee and not generated")
 	return nil
 }
